@@ -24,11 +24,13 @@ PID = 'C15'
 LEVEL = 'model_checking'
 RULE = ('two-configuration traversal of the C01 BFS state graph (option on / off) + exhaustive property placement product + flag-flip sequences; '
         'states = documents / databases visited, transitions = parses and flag assignments; distinct_nontrivial = distinct (state or property case, style) compared')
-ASSUMPTIONS = ['a property key spelled like a body keyword (note, indexes) is that element, not a property (DBML ambiguity, not generated)',
+ASSUMPTIONS = ['a property key spelled like a setting keyword (pk, note, indexes, ...) is written quoted by the harness: unquoted it is that setting, not a property',
                'duplicate keys are not generated (last-wins is not claimed)',
                'round trip of multi-line values is C02/C13 territory (recorded finding C02-multiline-settings-text); here they are checked for exact storage only']
 
-KEYS = ['k', 'my key', 'K2', 'ref_x', 'table', 'pkey', 'nullable', 'notes', 'indexes_x', 'unique_id']
+KEYS = ['k', 'my key', 'K2', 'ref_x', 'table', 'pkey', 'nullable', 'notes', 'indexes_x', 'unique_id',
+        # spelled like a setting keyword (written quoted: that is what makes them keys) and non-ASCII words
+        'pk', 'note', 'Note', 'default', 'ref', 'unique', 'increment', 'null', 'indexes', 'not null', 'primary key', 'größe', 'ключ', '٣']
 VALUES = ['v', "it's", 'a "b"', ' padded ', '', 'multi\nline', 'x: y, [z]']
 ORDINARY = [('pk', None), ('not_null', None), ('default', ['int', 1]), ('note', 'cn'), ('ref', None), ('unique', None)]
 
@@ -327,8 +329,72 @@ def check_layouts(p):
             p['outcomes']['layout/ok'] += 1
 
 
+ROUTES = ['PyDBML(str)', 'PyDBML(Path)', 'PyDBML(open file)', 'PyDBML.parse(str)', 'PyDBML().parse(str)']
+
+
+def parse_via(route, text, on):
+    import os
+    import pathlib
+    import tempfile
+    from pydbml import PyDBML
+    kw = {} if on is None else {'allow_properties': on}
+    if route == 'PyDBML(str)':
+        return PyDBML(text, **kw)
+    if route == 'PyDBML.parse(str)':
+        return PyDBML.parse(text, **kw)
+    if route == 'PyDBML().parse(str)':
+        return PyDBML().parse(text, **kw)
+    fd, path = tempfile.mkstemp(prefix='verif_c15_', suffix='.dbml')
+    try:
+        with os.fdopen(fd, 'w', encoding='utf8') as f:
+            f.write(text)
+        if route == 'PyDBML(Path)':
+            return PyDBML(pathlib.Path(path), **kw)
+        with open(path, encoding='utf8') as f:
+            return PyDBML(f, **kw)
+    finally:
+        os.unlink(path)
+
+
+def check_routes(p):
+    """the option is honoured on every route that takes it: on -> stored + flag on, off / not given -> syntax error; a document without
+    properties gives flag == option"""
+    import pyparsing
+    m = flip_model()
+    with_props = writer.write(m)
+    exp = writer.expected(m)
+    bare = writer.write(emptied(m))
+    for route in ROUTES:
+        for on in (True, False, None):
+            case = {'mode': 'routes', 'route': route, 'option': on}
+            p['evaluations'] += 1
+            p['transitions'] += 2
+            p['nontrivial'].add(digest(case))
+            try:
+                db = parse_via(route, with_props, on)
+                if not on:
+                    p['violations'].append(violation(PID, 'properties-accepted-with-option-off', case, detail=f'{route}: a document with properties parses with allow_properties={on}'))
+                elif db.allow_properties is not True or not canon.same(canon.canon(db), exp):
+                    p['violations'].append(violation(PID, 'properties-not-stored-exactly', case, observed=canon.diff(canon.canon(db), exp),
+                                                     detail=f'{route}, option on: ' + (canon.diff(canon.canon(db), exp) or ['flag is off'])[0]))
+                else:
+                    p['outcomes']['routes/stored'] += 1
+            except pyparsing.ParseBaseException as e:
+                if on:
+                    p['violations'].append(violation(PID, 'properties-rejected-with-option-on', case, observed=exc_info(e),
+                                                     detail=f'{route} with allow_properties=True rejects a document with properties: {str(e)[:120]}'))
+                else:
+                    p['outcomes']['routes/rejected-when-off'] += 1
+            try:
+                db = parse_via(route, bare, on)
+                if db.allow_properties is not bool(on):
+                    p['violations'].append(violation(PID, 'flag-wrong', case, observed=db.allow_properties, detail=f'{route} with allow_properties={on}: database flag is {db.allow_properties!r}'))
+            except Exception as e:
+                p['violations'].append(violation(PID, 'option-changes-parse', case, observed=exc_info(e), detail=f'{route}: property-free document rejected: {type(e).__name__}'))
+
+
 def units(tier, seed):
-    us = [('layouts', None, None)]
+    us = [('layouts', None, None), ('routes', None, None)]
     b = bounds(tier)
     for first in c01.DECLS:
         us.append(('same-bfs', first, b['bfs_depth']))
@@ -350,6 +416,9 @@ def work(unit):
     if mode == 'layouts':
         check_layouts(p)
         p['samples'].append({'mode': 'layout', 'text': LAYOUT_DOCS[0][0]})
+    elif mode == 'routes':
+        check_routes(p)
+        p['samples'].append({'mode': 'routes', 'routes': ROUTES})
     elif mode == 'same-bfs':
         frontier = [(a,)]
         while frontier:
@@ -414,6 +483,9 @@ def replay(case):
     if mode == 'layout':
         check_layouts(p)
         return [v for v in p['violations'] if v['case'].get('text') == case.get('text')]
+    if mode == 'routes':
+        check_routes(p)
+        return [v for v in p['violations'] if v['case'] == case]
     if mode == 'same':
         m, order, ok = c01.state_model(tuple(case['seq']))
         check_same(p, m, order, {'mode': 'same', 'seq': case['seq']})
